@@ -102,6 +102,7 @@ def gen_case(rng, tier, i):
     n = 20
     rr = np.sqrt(rng.uniform(0, 1, n)); th = rng.uniform(0, 2 * np.pi, n)
     rr[:4] = 1.0
+    rr[4] = 0.0        # the exact pupil centre: on axis it lands exactly on every vertex (radius 0 is inside any aperture without obscuration)
     case = dict(spec=spec, info=info, classes=sorted(set(classes)), mode=mode, dist=dist, nr=nr,
                 Hy=float(rng.choice([0.0, 1.0, rng.uniform(-1, 1)])), Px=(rr * np.cos(th)).tolist(),
                 Py=(rr * np.sin(th)).tolist(),
@@ -198,8 +199,10 @@ def check_case(case, rec):
             ap = s['aperture']
             out = (r2 > ap['r_max'] ** 2) | (r2 < ap.get('r_min', 0.0) ** 2)
             # rays within 1e-9 of an aperture edge are not judged (edge membership is rounding)
-            edge = (np.abs(np.sqrt(r2) - ap['r_max']) < 1e-9 * (1 + ap['r_max'])) | \
-                   (np.abs(np.sqrt(r2) - ap.get('r_min', 0.0)) < 1e-9 * (1 + ap['r_max']))
+            # (an aperture without obscuration has no inner rim: radius 0 is inside it)
+            edge = np.abs(np.sqrt(r2) - ap['r_max']) < 1e-9 * (1 + ap['r_max'])
+            if ap.get('r_min', 0.0) > 0:
+                edge |= np.abs(np.sqrt(r2) - ap['r_min']) < 1e-9 * (1 + ap['r_max'])
             fac = np.where(out & v, 0.0, fac)
             fac = np.where(edge, np.nan, fac)
             dark |= out & v
